@@ -223,13 +223,21 @@ static void runAssemblerCase(verif::Run& run, Sut& S, const Configs& C, const Ca
     try {
         as.initialize(s);
         goal0 = as.calcCurrentGoal();
-        if (mh > 0 && c.goal && c.start == 1) {   // is some holonomic equation independent of every free q at the start (central differences)?
-            const Vector f0 = as.getFreeQsFromInternalState(); const int nf = f0.size();
-            std::vector<Real> rowMax(as.getInternalState().getNQErr(), 0);
+        if (mh > 0 && c.goal && c.start == 1) {   // are the holonomic equations rank-deficient w.r.t. the free q at the start (central differences)?
+            const Vector f0 = as.getFreeQsFromInternalState(); const int nf = f0.size(); const int m = as.getInternalState().getNQErr();
+            std::vector<std::vector<LD> > rows(m, std::vector<LD>(nf, 0));
             for (int i = 0; i < nf; ++i) { Vector f = f0; const Real h = 1e-5; f[i] += h; as.setInternalStateFromFreeQs(f); const Vector ep = as.getInternalState().getQErr(); f[i] -= 2 * h; as.setInternalStateFromFreeQs(f); const Vector em = as.getInternalState().getQErr();
-                for (size_t r = 0; r < rowMax.size(); ++r) rowMax[r] = std::max(rowMax[r], std::abs(ep[(int)r] - em[(int)r]) / (2 * h)); }
+                for (int r = 0; r < m; ++r) rows[r][i] = ((LD)ep[r] - (LD)em[r]) / (2 * h); }
             as.setInternalStateFromFreeQs(f0);
-            for (Real m : rowMax) { if (m < 1e-9) degenerate = true; if (run.verbose) printf("    max |d perr/d freeq| of a row = %.3g\n", m); }
+            LD big = 0; for (auto& r : rows) { LD n = 0; for (LD x : r) n += x * x; big = std::max(big, sqrtl(n)); }
+            int rank = 0; std::vector<std::vector<LD> > Q;
+            for (auto r : rows) {
+                for (int pass = 0; pass < 2; ++pass) for (auto& q : Q) { LD d = 0; for (int i = 0; i < nf; ++i) d += q[i] * r[i]; for (int i = 0; i < nf; ++i) r[i] -= d * q[i]; }
+                LD n = 0; for (LD x : r) n += x * x; n = sqrtl(n);
+                if (n > 1e-6L * big && n > 1e-9L) { for (LD& x : r) x /= n; Q.push_back(r); ++rank; }
+            }
+            degenerate = rank < m;
+            if (run.verbose) printf("    rank of d perr / d freeq = %d of %d\n", rank, m);
         }
         if (run.verbose && getenv("C43_GRADCHECK") && (os || mk)) {   // debugging aid: analytic goal gradient of the condition vs central differences
             AssemblyCondition* cnd = os ? (AssemblyCondition*)os : (AssemblyCondition*)mk;
@@ -292,7 +300,7 @@ static void runAssemblerCase(verif::Run& run, Sut& S, const Configs& C, const Ca
         const bool reachable = c.bounds != 2;
         if (reachable && c.start == 1) {
             run.count("goal:reachable-near");
-            const std::string sfx = std::string(c.tol ? "accuracy-1e-6" : "default-accuracy") + (degenerate ? "/a-constraint-is-independent-of-the-free-q" : "") + (c.lock == 100 ? "/state-locked-mobilizer" : "");
+            const std::string sfx = std::string(c.tol ? "accuracy-1e-6" : "default-accuracy") + (degenerate ? "/constraint-jacobian-rank-deficient-in-the-free-q" : "") + (c.lock == 100 ? "/state-locked-mobilizer" : "");
             run.residual("misfit-for-reachable-goal(near-start)", (double)misfit1, c.tol ? REACH_TOL_TIGHT : REACH_TOL_DEFAULT, where, rp, sfx);
             if (degenerate) run.count("goal:reachable-near:degenerate-constraint-jacobian");
         }
